@@ -247,22 +247,28 @@ def shortest_fraction_digits(x):
     return max(0, -d.as_tuple().exponent)
 
 
+def digits_with_sign(x):
+    return len(str(int(abs(x)))) + (1 if x < 0 else 0)
+
+
 def classify(ev, msg, asan_report=None):
     """semantic class of a rejected event (key of known_findings) or None"""
     x = value_of(ev)
-    if "crash" in ev:
-        # the decimal expansion (with sign and ".0000000000") does not fit the 101-byte buffer
-        if x is None or x != x or x in (float("inf"), float("-inf")) or abs(x) < 2.0 ** 63:
-            return None
-        need = len(str(int(abs(x)))) + (1 if x < 0 else 0)
-        if need < 90:
-            return None
-        if asan_report is not None:
-            ok = "stack-buffer-overflow" in asan_report and re.search(r"NumberToDOMString|NumberToCharacters", asan_report)
-            return "huge-magnitude-buffer-overflow" if ok else None
-        return "huge-magnitude-buffer-overflow" if ev["crash"] in ("SIGSEGV", "SIGABRT", "SIGBUS") else None
+    finite = x is not None and x == x and x not in (float("inf"), float("-inf"))
+    # (1) the decimal expansion (sign + digits + ".0000000000" + NUL) does not fit the 101-byte buffer: undefined
+    #     behaviour - the process dies, or lives on with any output
+    if finite and abs(x) >= 2.0 ** 63 and digits_with_sign(x) >= 90:
+        if "crash" in ev:
+            if asan_report is not None:
+                # (a very long overrun makes the sanitizer die while unwinding: the report then has no frames)
+                ok = "stack-buffer-overflow" in asan_report and (re.search(r"NumberToDOMString|NumberToCharacters", asan_report) or "#1 " not in asan_report)
+                return "huge-magnitude-buffer-overflow" if ok else None
+            return "huge-magnitude-buffer-overflow" if ev["crash"] != "TIMEOUT" else None
+        return "huge-magnitude-buffer-overflow"
+    if "crash" in ev or not finite:
+        return None
     if ev["dir"] in ("sn", "ns"):
-        if x is None or x == 0 or x != x or abs(x) >= 1:
+        if x == 0 or abs(x) >= 1:
             return None
         outs = set(outs_of(ev))
         if len(outs) != 1:
@@ -274,7 +280,7 @@ def classify(ev, msg, asan_report=None):
         capped = ("%.35f" % x).rstrip("0")
         capped = capped[:-1] if capped.endswith(".") else capped
         if capped in ("0", "-0"):
-            return "tiny-prints-zero" if out == "0" and abs(x) < 1e-35 else None
+            return "tiny-prints-zero" if out == capped else None
         return "fraction-beyond-35-digits" if out == capped else None
     if ev["dir"] == "round":
         a = arg_of(ev)
@@ -284,17 +290,16 @@ def classify(ev, msg, asan_report=None):
         if len(outs) != 1:
             return None
         out = outs.pop()
-        if -0.5 <= a <= 0 and (a < 0 or ev.get("arg") == "nzero"):
-            # value right ("0"), sign of zero lost
-            if out == "0" and ev.get("rbits") == [0, 0, 0, 0] and ev.get("inv", cps("Infinity")) == cps("Infinity"):
-                return "round-negative-zero"
-            return None
-        # the implementation adds 0.5 (subtracts for negatives) in binary64: inexact for the largest double below
-        # 0.5 and for odd integers of magnitude 2^52..2^53
+        # the implementation adds 0.5 (subtracts for negatives) in binary64: inexact for the doubles next to +-0.5
+        # and for odd integers of magnitude 2^52..2^53
         if a > 0 and Fraction(a) + Fraction(1, 2) != Fraction(a + 0.5) and abs(a) < 2.0 ** 53:
             return "round-add-half-inexact" if out == str(int(a + 0.5)) else None
         if a < 0 and Fraction(a) - Fraction(1, 2) != Fraction(a - 0.5) and abs(a) < 2.0 ** 53:
             return "round-add-half-inexact" if out == str(int(a - 0.5)) else None
+        if -0.5 <= a <= 0 and (a < 0 or ev.get("arg") == "nzero"):
+            # value right ("0"), sign of zero lost
+            if out == "0" and ev.get("rbits") == [0, 0, 0, 0] and ev.get("inv", cps("Infinity")) == cps("Infinity"):
+                return "round-negative-zero"
     return None
 
 
@@ -318,27 +323,34 @@ def nontrivial(ev):
 def build_cases(tier, seed, wd, res):
     quick = tier == "quick"
     rnd = random.Random(seed)
-    # ---- MC + GEN (strings): the state graph of StrSpec is the set of strings
+    # ---- MC + GEN: three TLC runs side by side.  The state graph of StrSpec is the set of strings, the initial
+    # states of GenSpec are the numerals (both dumped); NumSpec checks the laws of the digit-sequence algorithms
+    # (it only has to finish before the verdict: run() joins it at the end).
     maxlen = 5 if quick else 6
-    cfg = os.path.join(wd, "str.cfg")
-    open(cfg, "w").write(cfg_text("StrSpec", maxlen, 1, ["DfaIsGrammar", "CanonOfString", "NonNumbersAreNaN", "OutputGrammarIsCanonical"]))
-    sdump = os.path.join(wd, "strings")
-    r = vlib.tlc_mc(MC, cfg, name="c18str", timeout=1500, extra=["-dump", sdump])
-    res.add_mc(r, "MC_Numeral/StrSpec(MaxLen=%d)" % maxlen)
-    strings = [s["x"]["s"] for s in tlaparse.read_dump(sdump + ".dump", only={"x"})]
-    # ---- MC (numeral laws)
-    cfg = os.path.join(wd, "num.cfg")
-    open(cfg, "w").write(cfg_text("NumSpec", 1, 1, ["CanonIsTheValue", "RoundingLaws", "BinaryLaws", "RoundSigLaw"]))
-    r = vlib.tlc_mc(MC, cfg, name="c18num", timeout=1500)
-    res.add_mc(r, "MC_Numeral/NumSpec")
-    # ---- GEN (numerals)
     maxsig = 3 if quick else 4
-    cfg = os.path.join(wd, "gen.cfg")
-    open(cfg, "w").write(cfg_text("GenSpec", 1, maxsig, ["GenSane"]))
-    gdump = os.path.join(wd, "numerals")
-    r = vlib.tlc_mc(MC, cfg, name="c18gen", timeout=1500, extra=["-dump", gdump])
-    res.add_mc(r, "MC_Numeral/GenSpec(MaxSig=%d)" % maxsig)
-    numerals = [s["x"] for s in tlaparse.read_dump(gdump + ".dump", only={"x"})]
+    sdump, gdump = os.path.join(wd, "strings"), os.path.join(wd, "numerals")
+    jobs = {"str": ("StrSpec", maxlen, 1, ["DfaIsGrammar", "CanonOfString", "NonNumbersAreNaN", "OutputGrammarIsCanonical"], ["-dump", sdump], 6),
+            "gen": ("GenSpec", 1, maxsig, ["GenSane"], ["-dump", gdump], 4),
+            "num": ("NumSpec", 1, 1, ["CanonIsTheValue", "RoundingLaws", "BinaryLaws", "RoundSigLaw", "LimbLaw"], [], 4)}
+
+    def mc(name):
+        spec, ml, ms, invs, extra, workers = jobs[name]
+        cfg = os.path.join(wd, name + ".cfg")
+        open(cfg, "w").write(cfg_text(spec, ml, ms, invs))
+        return vlib.tlc_mc(MC, cfg, name="c18" + name, timeout=1500, extra=extra, workers=workers)
+
+    pool = ThreadPoolExecutor(max_workers=3)
+    futs = {k: pool.submit(mc, k) for k in jobs}
+    res.add_mc(futs["str"].result(), "MC_Numeral/StrSpec(MaxLen=%d)" % maxlen)
+    res.add_mc(futs["gen"].result(), "MC_Numeral/GenSpec(MaxSig=%d)" % maxsig)
+    res._c18_num = futs["num"]
+    pool.shutdown(wait=False)
+    # (sorted: the order of a multi-worker dump varies, the seeded choices below must not)
+    strings = sorted((s["x"]["s"] for s in tlaparse.read_dump(sdump + ".dump", only={"x"})), key=lambda a: (len(a), a))
+    numerals = sorted((s["x"] for s in tlaparse.read_dump(gdump + ".dump", only={"x"})), key=lambda n: (n["e"], n["ds"], n["neg"]))
+    if quick:
+        # all 1-2 digit numerals; 3-digit ones around the boundaries (1e-38..1e24: precision cap, 2^53, 2^63, 1e22; 1e86..1e92)
+        numerals = [n for n in numerals if len(n["ds"]) <= 2 or -38 <= n["e"] <= 24 or 86 <= n["e"] <= 92]
 
     cases, klass = [], {}
 
@@ -369,7 +381,7 @@ def build_cases(tier, seed, wd, res):
         for f in fns:
             add({"dir": f, "in": cps(s)}, "range-ends")
     # ties and their neighbours, exact expansions
-    for x in gen_ties(rnd, 150 if quick else 3000):
+    for x in gen_ties(rnd, 30 if quick else 3000):
         s = exact_decimal(x)
         for f in fns:
             add({"dir": f, "in": cps(s)}, "ties")
@@ -406,7 +418,7 @@ def boundary_subset(cases):
         if a != a or a == 0:
             continue
         if 9e18 <= a < 2e19 or 1e86 <= a < 1e92 or a >= 1e119 or 1e-37 < a < 1e-33 or a < 1e-300:
-            out.append(c)
+            out.append(dict(c, _a=a))
     return out
 
 
@@ -419,33 +431,34 @@ def run(res, tier, seed):
     vlib.log("c18: MC+GEN %.0fs, %d cases %s" % (time.time() - t0, len(cases), klass))
     res.notes["cases_per_class"] = klass
     known = {k["key"]: k for k in vlib.known_findings(PROP)}
-    # ---- RUN (plain build, all cases)
+    # ---- RUN: plain build on all cases; ASan/UBSan build on the magnitude boundaries (side by side)
     exe = vlib.build_harness("c18")
-    t1 = time.time()
-    events, problems = run_harness(exe, cases, wd, "hooks", 8)
-    vlib.log("c18: RUN(hooks) %.0fs" % (time.time() - t1))
-    if problems:
-        rc, err, got, n, cp = problems[0]
-        if rc == 2:
-            raise vlib.Infra("harness usage error: " + err)
-        res.violation("harness terminated abnormally (rc=%s, %d of %d events): %s" % (rc, got, n, err[-300:]), events[-5:])
-        return
-    # ---- RUN (ASan/UBSan build, magnitude boundaries)
-    sub = boundary_subset(cases)
-    if quick and len(sub) > 1500:
-        sub = random.Random(seed + 1).sample(sub, 1500)
     aexe = vlib.build_harness("c18", "asan")
+    sub = boundary_subset(cases)
+    # every overflowing case costs a symbolised sanitizer report: cap their number
+    r2 = random.Random(seed + 1)
+    huge = [c for c in sub if c.get("_a", 0) >= 1e88]
+    rest = [c for c in sub if c.get("_a", 0) < 1e88]
+    huge = r2.sample(huge, min(len(huge), 60 if quick else 600))
+    rest = r2.sample(rest, min(len(rest), 800 if quick else 20000))
+    sub = [{k: v for k, v in c.items() if k != "_a"} for c in huge + rest]
     logdir = os.path.join(wd, "san")
     os.makedirs(logdir, exist_ok=True)
     aenv = {"ASAN_OPTIONS": "detect_leaks=0:log_path=%s/asan" % logdir, "UBSAN_OPTIONS": "print_stacktrace=1:log_path=%s/ubsan" % logdir}
-    aevents, problems = run_harness(aexe, sub, wd, "asan", 8, env=aenv)
-    if problems:
-        rc, err, got, n, cp = problems[0]
-        if rc == 2:
-            raise vlib.Infra("harness usage error (asan): " + err)
-        res.violation("harness (asan) terminated abnormally (rc=%s, %d of %d events): %s" % (rc, got, n, err[-300:]), aevents[-5:])
-        return
-    vlib.log("c18: RUN(asan) %d cases, total %.0fs" % (len(sub), time.time() - t0))
+    t1 = time.time()
+    with ThreadPoolExecutor(max_workers=2) as ex:
+        fa = ex.submit(run_harness, aexe, sub, wd, "asan", 4, aenv)
+        fh = ex.submit(run_harness, exe, cases, wd, "hooks", 12)
+        events, problems = fh.result()
+        aevents, aproblems = fa.result()
+    vlib.log("c18: RUN %.0fs (%d cases plain, %d asan)" % (time.time() - t1, len(cases), len(sub)))
+    for flavour, evs, probs in (("hooks", events, problems), ("asan", aevents, aproblems)):
+        if probs:
+            rc, err, got, n, cp = probs[0]
+            if rc == 2:
+                raise vlib.Infra("harness usage error (%s): %s" % (flavour, err))
+            res.violation("harness (%s) terminated abnormally (rc=%s, %d of %d events): %s" % (flavour, rc, got, n, err[-300:]), evs[-5:])
+            return
     reports = {}
     for p in glob.glob(os.path.join(logdir, "*")):
         m = re.search(r"\.(\d+)$", p)
@@ -457,11 +470,15 @@ def run(res, tier, seed):
     res.cov["evaluations"] = len(allev)
     res.notes["asan_cases"] = len(aevents)
     # ---- TV: every event is its own execution
+    # (costly long numerals come in runs: deal the events round-robin so that the contiguous shards are balanced)
+    nsh = vlib.NCPU
+    order = [i for r in range(nsh) for i in range(r, len(allev), nsh)]
+    allev = [allev[i] for i in order]
     flat = []
     for ev in allev:
         flat.append({"e": "Reset"})
         flat.append({k: v for k, v in ev.items() if k not in ("san", "pid")})
-    rejects, st = vlib.tlc_validate_sharded(TRACE, flat, tag="c18tv", timeout=3000)
+    rejects, st = vlib.tlc_validate_sharded(TRACE, flat, shards=nsh, tag="c18tv", timeout=3000)
     res.notes["tv_states"] = st["tv_states"]
     vlib.log("c18: TV done, total %.0fs, %d rejects" % (time.time() - t0, len(rejects)))
     bad = 0
@@ -484,6 +501,7 @@ def run(res, tier, seed):
                 what += " [asan build] " + " ".join(re.findall(r"(?:ERROR|SUMMARY|runtime error):[^\n]*", rep or ""))[:300]
             res.violation(what[:600], [{"e": "Reset"}, {k: v for k, v in ev.items() if k not in ("san", "pid")}])
     res.cov["traces_validated_against_impl"] = len(allev) - bad
+    res.add_mc(res._c18_num.result(), "MC_Numeral/NumSpec")
     res.cov["distinct_nontrivial"] = len({vlib.canon_hash({k: v for k, v in ev.items() if k not in ("pid",)}) for ev in allev if nontrivial(ev)})
     res.cov["rule"] = ("one conversion event per case (string->number->string, double->string->number, round/floor/ceiling); "
                        "non-trivial = not a canonical integer of fewer than 10 characters (sn), not +0 (ns), a non-integer or huge argument (fn), "
